@@ -10,6 +10,10 @@ pub fn exec(op: &str, a: &Value) -> Option<Value> {
     let rel = |a: &Value| arg_relative(a.get("rel").unwrap_or(&Value::Null));
     Some(match op {
         "Duration.new" => run(|| arg_duration(&a["dur"]), p_duration),
+        // a property bag: only the keys present are supplied ({} or [] = empty bag)
+        "Duration.fromPartial" => run(|| { let p = &a["p"]; let g = |k: &str| p.get(k).map(ff);
+            Duration::from_partial_duration(temporal_rs::partial::PartialDuration { years: g("y"), months: g("mo"), weeks: g("w"), days: g("d"), hours: g("h"), minutes: g("mi"),
+                seconds: g("s"), milliseconds: g("ms"), microseconds: g("us"), nanoseconds: g("ns") }) }, p_duration),
         "DateDuration.new" => run(|| { let d = &a["dur"]; DateDuration::new(ff(&d["y"]), ff(&d["mo"]), ff(&d["w"]), ff(&d["d"])) },
             |d| json!({"y": js::big_f64(d.years.as_inner()), "mo": js::big_f64(d.months.as_inner()), "w": js::big_f64(d.weeks.as_inner()), "d": js::big_f64(d.days.as_inner())})),
         "TimeDuration.new" => run(|| { let d = &a["dur"]; TimeDuration::new(ff(&d["h"]), ff(&d["mi"]), ff(&d["s"]), ff(&d["ms"]), ff(&d["us"]), ff(&d["ns"])) },
